@@ -657,6 +657,7 @@ class Runner:
 
         self.prs = Presentation(io.BytesIO(deck_bytes))
         self.tbs = {}  # slide index -> text boxes created by this history
+        self.expect = {}  # (slide, text box, which) -> address last assigned (None: cleared); jumps are not tracked
         self.F = Files.get()
         self.saved = None
 
@@ -744,9 +745,11 @@ class Runner:
             h = tb.click_action.hyperlink if op[1] == "c" else tb.text_frame.paragraphs[0].runs[0].hyperlink
             if k == "LK":
                 h.address = op[4]
+                self.expect[(op[2], op[3], op[1])] = op[4] or None
                 return "D"
             if k == "CL":
                 h.address = None
+                self.expect[(op[2], op[3], op[1])] = None
                 return "D"
             a = h.address
             return "V:-" if a is None else "V:+" + a
@@ -756,9 +759,12 @@ class Runner:
             if tb is None:
                 return "N"
             if k == "JP":
-                tb.click_action.target_slide = prs.slides[op[3]]
+                tgt = prs.slides[op[3]]
+                self.expect.pop((op[1], op[2], "c"), None)
+                tb.click_action.target_slide = tgt
             else:
                 tb.click_action.target_slide = None
+                self.expect[(op[1], op[2], "c")] = None
             return "D"
         if k in ("NJ", "CN"):
             s = prs.slides[op[1]]
@@ -910,10 +916,34 @@ def oracle_save(runner, hist_so_far):
     facts = memory_facts(runner.prs)
     bad = oracle_closed(runner.saved, facts)
     mem = content_view(runner.prs, False)
+
+    def address(tb, w):
+        h = tb.click_action.hyperlink if w == "c" else tb.text_frame.paragraphs[0].runs[0].hyperlink
+        try:
+            return h.address
+        except KeyError as e:
+            return "KeyError %s" % e
+
+    # every hyperlink still has the address last assigned to it (an operation on one link must not retarget another)
+    for (i, j, w), want in sorted(runner.expect.items()):
+        got = address(runner.tbs[i][j], w)
+        if got != want:
+            bad.append(("link-retargeted", "in memory the %s link of text box %d on slide %d reads %r, the address last assigned to it is %r"
+                        % ("shape" if w == "c" else "run", j, i, got, want)))
     try:
-        back = content_view(Presentation(io.BytesIO(runner.saved)), True)
+        prs2 = Presentation(io.BytesIO(runner.saved))
+        back = content_view(prs2, True)
         if back != mem:
             bad.append(("reopen-differs", "re-opened presentation shows %r, memory had %r" % (back, mem)))
+        slides2 = list(prs2.slides)
+        for (i, j, w), want in sorted(runner.expect.items()):
+            name = runner.tbs[i][j].name
+            twins = [sh for sh in slides2[i].shapes if sh.name == name and sh.has_text_frame] if i < len(slides2) else []
+            if len(twins) == 1:
+                got = address(twins[0], w)
+                if got != want:
+                    bad.append(("link-retargeted", "after re-opening the %s link of %r on slide %d reads %r, the address last assigned to it is %r"
+                                % ("shape" if w == "c" else "run", name, i, got, want)))
     except Exception as e:  # noqa
         bad.append(("reopen-fails", "re-opening the saved file raised %s: %s" % (type(e).__name__, e)))
     if bad and facts["stale"]:
@@ -1110,7 +1140,7 @@ def run_one(deck_name, ops, with_model=True, model_lines=None):
                 bad = oracle_save(r, ops[:n])
                 if views is not None and not res["diffs"]:
                     mclosed = views[n]["phys"]["closed"] == "11111"
-                    oclosed = not [b for b in bad if b[0] not in ("reopen-differs", "reopen-fails")]
+                    oclosed = not [b for b in bad if b[0] not in ("reopen-differs", "reopen-fails", "link-retargeted")]
                     if mclosed != oclosed:
                         res["diffs"].append((n, op, "Closed verdict: model %s (%s) oracle %r" % (mclosed, views[n]["phys"]["closed"], bad[:2])))
                 for sig, text in bad:
@@ -1151,6 +1181,75 @@ def model_views(deck_name, ops_list, mode="n"):
     return [parse_model(tab, l) for l in lines]
 
 
+def every_prefix(ops):
+    out = [("SV",)]
+    for o in ops:
+        out.append(o)
+        if o != ("SV",):
+            out.append(("SV",))
+    return out
+
+
+def directed_histories():
+    """Deterministic histories aimed at relationships with several users: two and three links of
+    one kind on one slide sharing a relationship (run links, shape links, both on one text box,
+    slide jumps), then one of them cleared, changed to another address, set back, the others read
+    and cleared in turn, a save after each stage; the same URL on two slides (two parts, two
+    relationships); two pictures of one image; the notes-slide jump to its own and to another slide."""
+    F = Files.get()
+    u, v = URLS[0], URLS[2]
+    img = (F.images[0][1], F.images[0][2], F.images[0][3])
+    img2 = (F.images[2][1], F.images[2][2], F.images[2][3])
+    hs = []
+
+    def link(name, slots):
+        """slots: list of (which, text box); the first is the one that is cleared / changed"""
+        n = max(j for _w, j in slots) + 1
+        ops = [("PS", 0)] * n
+        ops += [("LK", w, 0, j, u) for w, j in slots] + [("SV",)]
+        w0, j0 = slots[0]
+        others = slots[1:]
+        ops += [("CL", w0, 0, j0), ("SV",)] + [("RL", w, 0, j) for w, j in others]
+        ops += [("LK", w0, 0, j0, u), ("SV",), ("LK", w0, 0, j0, v), ("SV",)] + [("RL", w, 0, j) for w, j in others]
+        ops += [("LK", w0, 0, j0, u), ("SV",)]
+        for w, j in others:
+            ops += [("CL", w, 0, j), ("SV",), ("RL", w0, 0, j0)]
+        ops += [("CL", w0, 0, j0), ("SV",)]
+        hs.append((name, ops))
+
+    for w, wn in (("r", "run"), ("c", "shape")):
+        link("two-%s-links" % wn, [(w, 0), (w, 1)])
+        link("two-%s-links-other-cleared" % wn, [(w, 1), (w, 0)])
+        link("three-%s-links" % wn, [(w, 0), (w, 1), (w, 2)])
+    link("run-and-shape-link-one-box", [("r", 0), ("c", 0)])
+    link("shape-and-run-link-two-boxes", [("c", 0), ("r", 1)])
+    link("one-link", [("r", 0)])
+    for n in (2, 3):
+        ops = [("PS", 0)] * n + [("JP", 0, j, 1) for j in range(n)] + [("SV",)]
+        ops += [("CJ", 0, 0), ("SV",), ("JP", 0, 0, 1), ("SV",), ("JP", 0, 0, 0), ("SV",), ("JP", 0, 0, 1), ("SV",)]
+        ops += [("RL", "c", 0, 1)]
+        for j in range(1, n):
+            ops += [("CJ", 0, j), ("SV",)]
+        ops += [("CJ", 0, 0), ("SV",)]
+        hs.append(("%d-jumps-one-target" % n, ops))
+    hs.append(("jump-and-link-same-box", [("PS", 0), ("PS", 0), ("JP", 0, 0, 1), ("LK", "c", 0, 1, u), ("LK", "r", 0, 0, u), ("SV",),
+                                          ("LK", "c", 0, 0, u), ("SV",), ("CL", "c", 0, 1), ("SV",), ("RL", "c", 0, 0), ("RL", "r", 0, 0)]))
+    for w in "rc":
+        hs.append(("same-url-two-slides-%s" % w, [("PS", 0), ("PS", 1), ("LK", w, 0, 0, u), ("LK", w, 1, 0, u), ("SV",), ("CL", w, 0, 0), ("SV",),
+                                                   ("RL", w, 1, 0), ("LK", w, 0, 0, v), ("SV",), ("LK", w, 1, 0, v), ("SV",), ("CL", w, 1, 0), ("SV",)]))
+    hs.append(("two-pictures-one-image", [("PI", 0, img), ("PI", 0, img), ("SV",), ("PI", 0, img2), ("PI", 1, img), ("SV",)]))
+    hs.append(("notes-jump-own-slide", [("NT", 0), ("NJ", 0, 0), ("SV",), ("CN", 0), ("SV",), ("NJ", 0, 1), ("SV",), ("NJ", 0, 0), ("SV",), ("CN", 0), ("SV",)]))
+    return hs
+
+
+def directed_worker(job):
+    deck_name, name, ops = job
+    if deck_name == "default":
+        ops = [("SL", 6), ("SL", 6)] + list(ops)
+    vs = [("directed:" + name, list(ops) + [("SV",)]), ("directed:" + name + "+save-every-prefix", every_prefix(ops))]
+    return run_variants(deck_name, vs, "directed:" + name)
+
+
 def worker(job):
     """One history: all its variants, on implementation and model."""
     hseed, tier_len = job
@@ -1159,8 +1258,11 @@ def worker(job):
     deck_name = rng.choice(["default", "default", "rich"] + names)
     n = rng.randint(1, tier_len)
     ops = gen_history(rng, deck_name, n)
-    out = {"hseed": hseed, "deck": deck_name, "n": n, "results": [], "klass": {}}
-    vs = variants(rng, deck_name, ops)
+    return run_variants(deck_name, variants(rng, deck_name, ops), hseed)
+
+
+def run_variants(deck_name, vs, hseed):
+    out = {"hseed": hseed, "deck": deck_name, "results": [], "klass": {}}
     try:
         mviews = model_views(deck_name, [v[1] for v in vs])
     except Exception as e:  # noqa
@@ -1217,8 +1319,10 @@ def run(ck, tier, rng):
         # without the model the oracle still runs
         global model_views
         model_views = lambda deck_name, ops_list, mode="n": [None] * len(ops_list)  # noqa
+    djobs = [(d, name, ops) for d in ("default", "rich", "swap", "gaps") for name, ops in directed_histories()]
     with multiprocessing.Pool(procs) as pool:
-        results = pool.map(worker, jobs, chunksize=max(1, nh // (procs * 8)))
+        results = pool.map(directed_worker, djobs, chunksize=2)
+        results += pool.map(worker, jobs, chunksize=max(1, nh // (procs * 8)))
     nsaves = 0
     inv_states = 0
     inv_false = []
@@ -1258,9 +1362,10 @@ def run(ck, tier, rng):
                      {"theorem_or_correspondence": "C02_reachable / hypothesis Inv (init deck) of the C02 theorems", "states": inv_false[:5]}, concrete=False)
     ck.broken_build(oracle_found_concrete=len(ck.violations) > 0)
     return ck.finish(
-        rule="%d random histories of 1..%d public-API operations (21 operation kinds incl. refused calls and read accesses) over the default template, a deck with pictures/chart/notes/hyperlink and five copies of it with slide members renamed out of order / with gaps; each history runs as generated + final save and with a save at every prefix (for irregular decks half of those after a first prs.slides access); non-trivial = at least two graph-changing operations succeeded and a save followed" % (nh, maxlen),
+        rule="%d directed histories (relationships with two and three users: run links, shape links, jumps, same URL on two slides, two pictures of one image, notes-slide jumps; each set / one cleared / changed / set back / cleared in turn with a save after every stage, on 4 decks, as given and with a save at every prefix) + %d random histories of 1..%d public-API operations (21 operation kinds incl. refused calls and read accesses) over the default template, a deck with pictures/chart/notes/hyperlink and five copies of it with slide members renamed out of order / with gaps; each history runs as generated + final save and with a save at every prefix (for irregular decks half of those after a first prs.slides access); non-trivial = at least two graph-changing operations succeeded and a save followed" % (len(djobs) * 2, nh, maxlen),
         trusted_base=TB, assumptions=ASSUME,
         extra={"correspondence_diffs": len(diffs), "saves_checked_by_oracle": nsaves, "constants_ok": consts_ok,
+               "directed_histories": len(djobs) * 2,
                "states_on_which_invb_was_evaluated": inv_states, "states_with_invb_false": len(inv_false),
                "exhaustive": False},
     )
